@@ -4,9 +4,12 @@ import (
 	"bytes"
 	"encoding/binary"
 	"errors"
+	"runtime"
 	"sort"
+	"strconv"
 	"sync"
 	"sync/atomic"
+	"time"
 
 	"github.com/NethermindEth/juno/db"
 	"github.com/NethermindEth/juno/db/memory"
@@ -76,6 +79,10 @@ func (d *RecDB) didRead(key []byte) {
 type recSnapshot struct {
 	db.Snapshot
 	d *RecDB
+}
+
+func (s recSnapshot) NewIterator(prefix []byte, withUpperBound bool) (db.Iterator, error) {
+	return s.d.wrapIter(s.Snapshot.NewIterator(prefix, withUpperBound))
 }
 
 func (s recSnapshot) Get(key []byte, cb func([]byte) error) error {
@@ -204,7 +211,7 @@ func (d *RecDB) Get(key []byte, cb func([]byte) error) error {
 }
 
 func (d *RecDB) NewIterator(prefix []byte, withUpperBound bool) (db.Iterator, error) {
-	return d.inner.NewIterator(prefix, withUpperBound)
+	return d.wrapIter(d.inner.NewIterator(prefix, withUpperBound))
 }
 
 func (d *RecDB) Put(key, value []byte) error {
@@ -306,11 +313,37 @@ func (b *recIBatch) Get(key []byte, cb func([]byte) error) error {
 	if err := b.d.readFault(); err != nil {
 		return err
 	}
-	return b.ib.Get(key, cb)
+	err := b.ib.Get(key, cb)
+	b.d.didRead(key)
+	return err
 }
 
 func (b *recIBatch) NewIterator(prefix []byte, withUpperBound bool) (db.Iterator, error) {
-	return b.ib.NewIterator(prefix, withUpperBound)
+	return b.d.wrapIter(b.ib.NewIterator(prefix, withUpperBound))
+}
+
+// recIter reports every positioning call of an iterator to the read hook (the position
+// between an iterator seek and the next point read is where a reader that is not working
+// on a snapshot can be overtaken).
+type recIter struct {
+	db.Iterator
+	d *RecDB
+}
+
+func (d *RecDB) wrapIter(it db.Iterator, err error) (db.Iterator, error) {
+	if err != nil || it == nil {
+		return it, err
+	}
+	return recIter{it, d}, nil
+}
+
+func (i recIter) First() bool { ok := i.Iterator.First(); i.d.didRead(nil); return ok }
+func (i recIter) Next() bool  { ok := i.Iterator.Next(); i.d.didRead(nil); return ok }
+func (i recIter) Prev() bool  { ok := i.Iterator.Prev(); i.d.didRead(nil); return ok }
+func (i recIter) Seek(k []byte) bool {
+	ok := i.Iterator.Seek(k)
+	i.d.didRead(k)
+	return ok
 }
 
 // --- helpers over write-sets and stores
@@ -364,4 +397,49 @@ func DumpEqual(a, b []KVPair) bool {
 		}
 	}
 	return true
+}
+
+// Overtake runs read() on the calling goroutine. Right after read's k-th point read
+// (through the store or one of its snapshots) write() is started on another goroutine and
+// the reader waits until it has finished - or, when it cannot finish because it needs
+// something the reader holds (a schedule the program cannot have), for at most grace;
+// the write is always complete when Overtake returns. fired: read did reach its k-th
+// read; inside: the write finished before the reader continued.
+func (d *RecDB) Overtake(k int, grace time.Duration, read, write func()) (fired, inside bool) {
+	me := goid()
+	var cnt atomic.Int64
+	done := make(chan struct{})
+	d.SetOnRead(func([]byte) {
+		if goid() != me || cnt.Add(1) != int64(k) {
+			return
+		}
+		d.SetOnRead(nil)
+		fired = true
+		go func() {
+			defer close(done)
+			write()
+		}()
+		select {
+		case <-done:
+			inside = true
+		case <-time.After(grace):
+		}
+	})
+	read()
+	d.SetOnRead(nil)
+	if fired {
+		<-done
+	}
+	return fired, inside
+}
+
+func goid() uint64 {
+	var buf [64]byte
+	b := buf[:runtime.Stack(buf[:], false)]
+	b = bytes.TrimPrefix(b, []byte("goroutine "))
+	if i := bytes.IndexByte(b, ' '); i > 0 {
+		n, _ := strconv.ParseUint(string(b[:i]), 10, 64)
+		return n
+	}
+	return 0
 }
